@@ -34,6 +34,7 @@ RULE = ("random streams of 1..3 layers (single or two composed processors per Bu
         "distinct inputs; quick 170 random + 33 directed, thorough 800 + 66; non-trivial = at least two inputs entered before the first "
         "output left, or an item was dropped, or a failure output occurred")
 COQ_SHARD = 40
+REGISTERED = True
 NONTRIVIAL_FLOOR = 20
 
 
